@@ -104,7 +104,7 @@ func explore(ld *loaded, fn *ssa.Function, hc harnessCfg, params map[string]int,
 	deadline := t0.Add(wall)
 
 	var mu sync.Mutex
-	pending := [][]gexec.Decision{nil}
+	pending := []gexec.PendingPath{{}}
 	active := 0
 	cond := sync.NewCond(&mu)
 	funcs := map[*ssa.Function]int{}
@@ -125,8 +125,8 @@ func explore(ld *loaded, fn *ssa.Function, hc harnessCfg, params map[string]int,
 		if opt.smtlog {
 			solver.Log = os.Stderr
 		}
-		tmplPending := [][]gexec.Decision{}
-		tmpl := gexec.NewInterp(ld.prog, gexec.NewCtx(st, solver, nil, 0, nil, &tmplPending))
+		tmplPending := []gexec.PendingPath{}
+		tmpl := gexec.NewInterp(ld.prog, gexec.NewCtx(st, solver, gexec.PendingPath{}, 0, nil, &tmplPending))
 		var prevTrace []gexec.Decision
 		var prevLevels []int
 		for {
@@ -153,7 +153,8 @@ func explore(ld *loaded, fn *ssa.Function, hc harnessCfg, params map[string]int,
 				cond.Broadcast()
 				return
 			}
-			prefix := pending[len(pending)-1]
+			pp := pending[len(pending)-1]
+			prefix := pp.Prefix
 			pending = pending[:len(pending)-1]
 			active++
 			res.Paths++
@@ -180,8 +181,10 @@ func explore(ld *loaded, fn *ssa.Function, hc harnessCfg, params map[string]int,
 				lvl = prevLevels[keep-1]
 			}
 			solver.PopTo(lvl)
-			var local [][]gexec.Decision
-			ctx := gexec.NewCtx(st, solver, prefix, keep, prevLevels, &local)
+			var local []gexec.PendingPath
+			ctx := gexec.NewCtx(st, solver, pp, keep, prevLevels, &local)
+			ctx.NoModel = os.Getenv("GOSYM_NOMODEL") != ""
+			ctx.NoSimp = os.Getenv("GOSYM_NOSIMP") != ""
 			ctx.FeasMs, ctx.ObligMs = feasMs, obligMs
 			if hc.Fresh {
 				ctx.SolverBin = opt.solver
@@ -310,6 +313,9 @@ func explore(ld *loaded, fn *ssa.Function, hc harnessCfg, params map[string]int,
 			res.Obligations += in.Obligations
 			res.Discharged += in.Discharged
 			res.Inconclusive += in.Inconclusive
+			for _, m := range in.InconclusiveMsgs {
+				res.AbortReasons["inconclusive obligation (solver unknown/timeout): "+m]++
+			}
 			res.Queries += q1.Checks - q0.Checks + ctx.FreshChecks
 			res.Sat += q1.Sat - q0.Sat + ctx.FreshSat
 			res.Unsat += q1.Unsat - q0.Unsat + ctx.FreshUnsat
